@@ -75,33 +75,41 @@ Definition expand_event (m : msg) : msg :=
 
 Definition get_acc (o : option accum) (fresh : accum) : accum := match o with Some a => a | None => fresh end.
 
-Definition expand_record (g : gstate) (m : msg) : msg * gstate :=
-  let m := widen16 m "Altitude" "EnhancedAltitude" in
-  let m := widen16 m "Speed" "EnhancedSpeed" in
+(* the three accumulated components of record, in the order of the generated code *)
+Definition expand_csd (g : gstate) (m : msg) : msg * gstate :=
   let csd := match fld m "CompressedSpeedDistance" with VList l => map uval l | _ => [] end in
   let expand := (Nat.eqb (List.length csd) 3) && existsb (fun v => negb (v =? 0xFF)) csd in
-  let '(m, g) :=
-    if expand then
-      let b0 := nth 0 csd 0 in let b1 := nth 1 csd 0 in let b2 := nth 2 csd 0 in
-      (* x.Speed = uint16(b0) | uint16(b1&0x0F)<<8 *)
-      let m := set_fld m "Speed" (VU (N.lor b0 (N.shiftl (N.land b1 0x0F) 8))) in
-      let a := get_acc (g_dist g) (new_accum 12) in
-      (* uint32(b1>>4) | uint32(b2<<4): the shift of b2 is evaluated in byte *)
-      let raw := N.lor (N.shiftr b1 4) ((N.shiftl b2 4) mod 256) in
-      let '(v, a') := accumulate a raw in
-      (set_fld m "Distance" (VU v), mk_gstate (Some a') (g_cycles g) (g_power g))
-    else (m, g) in
+  if expand then
+    let b0 := nth 0 csd 0 in let b1 := nth 1 csd 0 in let b2 := nth 2 csd 0 in
+    (* x.Speed = uint16(b0) | uint16(b1&0x0F)<<8 *)
+    let m := set_fld m "Speed" (VU (N.lor b0 (N.shiftl (N.land b1 0x0F) 8))) in
+    let a := get_acc (g_dist g) (new_accum 12) in
+    (* uint32(b1>>4) | uint32(b2<<4): the shift of b2 is evaluated in byte *)
+    let raw := N.lor (N.shiftr b1 4) ((N.shiftl b2 4) mod 256) in
+    let va := accumulate a raw in
+    (set_fld m "Distance" (VU (fst va)), mk_gstate (Some (snd va)) (g_cycles g) (g_power g))
+  else (m, g).
+
+Definition expand_cycles (g : gstate) (m : msg) : msg * gstate :=
   let cyc := uval (fld m "Cycles") in
-  let '(m, g) :=
-    if cyc =? 0xFF then (m, g) else
-      let a := get_acc (g_cycles g) zero_accum in
-      let '(v, a') := accumulate a (N.land cyc 0xFF) in
-      (set_fld m "TotalCycles" (VU v), mk_gstate (g_dist g) (Some a') (g_power g)) in
+  if cyc =? 0xFF then (m, g) else
+    let a := get_acc (g_cycles g) zero_accum in
+    let va := accumulate a (N.land cyc 0xFF) in
+    (set_fld m "TotalCycles" (VU (fst va)), mk_gstate (g_dist g) (Some (snd va)) (g_power g)).
+
+Definition expand_power (g : gstate) (m : msg) : msg * gstate :=
   let cap := uval (fld m "CompressedAccumulatedPower") in
   if cap =? 0xFFFF then (m, g) else
     let a := get_acc (g_power g) zero_accum in
-    let '(v, a') := accumulate a (N.land cap 0xFFFF) in
-    (set_fld m "AccumulatedPower" (VU v), mk_gstate (g_dist g) (g_cycles g) (Some a')).
+    let va := accumulate a (N.land cap 0xFFFF) in
+    (set_fld m "AccumulatedPower" (VU (fst va)), mk_gstate (g_dist g) (g_cycles g) (Some (snd va))).
+
+Definition expand_record (g : gstate) (m : msg) : msg * gstate :=
+  let m := widen16 m "Altitude" "EnhancedAltitude" in
+  let m := widen16 m "Speed" "EnhancedSpeed" in
+  let r1 := expand_csd g m in
+  let r2 := expand_cycles (snd r1) (fst r1) in
+  expand_power (snd r2) (fst r2).
 
 (* dispatch on the message type; None = the model does not cover this type's
    expandComponents (no file container calls it) *)
